@@ -84,11 +84,11 @@ fn c10_base() -> Xstate {
 
 fn rejected_candidates(quick: bool) -> Vec<String> {
     let prefixes: Vec<&str> = if quick {
-        vec!["", "1 2", "true if", "begin", "[ 1", ": f 1", "#( 1", "#( true if", ": f #(", "3 0 do", "5 var w", "case 1 of", "^{", "late q", "7 imm", ": lq 5 ; #( lu #)"]
+        vec!["", "1 2", "true if", "begin", "[ 1", ": f 1", "#( 1", "#( true if", ": f #(", "3 0 do", "5 var w", "case 1 of", "^{", "late q", "7 imm", ": lq 5 ; #( lu #)", "5 var lq #( lu #)"]
     } else {
         vec![
             "", "1", "1 2", "true if", "true if 1 else", "begin", "begin true while", "[ 1", "{ 1", ": f 1", ": f local x", "#(", "#( 1", "#( true if", "#( #( 2", ": f #(", "3 0 do", "[ 1 ] foreach",
-            "5 var w", "case 1 of", "case 1 of 2 endof", "enum E", "enum E : A", "^{", "late q", "1 let z", "#( 4 const c #)", ": f 1 ; : g f", "7 imm", ": lq 5 ; #( lu #)", ": lq 5 ; lu",
+            "5 var w", "case 1 of", "case 1 of 2 endof", "enum E", "enum E : A", "^{", "late q", "1 let z", "#( 4 const c #)", ": f 1 ; : g f", "7 imm", ": lq 5 ; #( lu #)", ": lq 5 ; lu", "5 var lq #( lu #)", "5 const lq #( lu #)",
         ]
     };
     let failing: Vec<&str> = if quick {
@@ -414,6 +414,72 @@ pub fn run(cfg: &Cfg) -> i32 {
         rt_histories = cnt.load(Ordering::Relaxed);
         rt_steps = steps.load(Ordering::Relaxed);
     }
+
+    // ---------- a program suspended in the middle (compiled, then single-stepped into a call, a loop or an open
+    // builder) continues exactly as it would have after a source was rejected meanwhile
+    let mut suspended_cases = 0u64;
+    {
+        let progs = [": s1 1 2 ; s1 s1 3", "2 0 do I loop 9", "[ 1 2 3 ] 4", "[ 5 6 ] foreach I loop 7", ": s2 2 0 do [ I ] loop ; s2"];
+        let rej: Vec<&String> = rejected.iter().step_by(if quick { 7 } else { 2 }).collect();
+        let cnt = AtomicU64::new(0);
+        par_run(cfg.threads, progs.len(), 1, |_t, pull| {
+            let base = c10_base();
+            while let Some(rg) = pull() {
+                for pi in rg {
+                    let prog = progs[pi];
+                    for k in 0..40usize {
+                        // the reference: k steps, then run to the end
+                        let mut a = base.clone();
+                        if !matches!(guarded(|| a.compile(prog)), Ok(Ok(()))) {
+                            break;
+                        }
+                        let mut stepped = 0;
+                        while stepped < k && a.is_running() {
+                            if !matches!(guarded(|| a.next()), Ok(Ok(()))) {
+                                break;
+                            }
+                            stepped += 1;
+                        }
+                        if stepped < k {
+                            break; // the program is shorter than k steps
+                        }
+                        let suspended = a.clone();
+                        let ra = guarded(|| a.run());
+                        let want = (format!("{:?}", ra.map(|r| res_kind(&r))), stack_of(&a), a.read_stdout().unwrap_or_default());
+                        for r in &rej {
+                            for rstyle in STYLES {
+                                cnt.fetch_add(1, Ordering::Relaxed);
+                                let mut b = suspended.clone();
+                                watch::note(r.as_str());
+                                let rr = guarded(|| match rstyle {
+                                    Style::Eval => b.eval(r),
+                                    Style::CompileRun => b.compile(r),
+                                });
+                                if !matches!(rr, Ok(Err(_))) {
+                                    continue; // not rejected in this state (or it panicked: C08's subject)
+                                }
+                                let _ = b.read_stdout();
+                                let rb = guarded(|| b.run());
+                                let got = (format!("{:?}", rb.map(|r| res_kind(&r))), stack_of(&b), b.read_stdout().unwrap_or_default());
+                                if got != want {
+                                    rep.report_w("suspended-program:rejected-source-has-effect", (k * 1000 + r.len()) as u64, || {
+                                        jo(vec![
+                                            ("kind", js("suspended-program")),
+                                            ("calls", J::A(vec![js(format!("compile {}", prog)), js(format!("next() x {}", k)), js(format!("{:?} {}   (rejected)", rstyle, r)), js("run()")])),
+                                            ("with_the_rejected_source", js(format!("{:?}", got))),
+                                            ("without_it", js(format!("{:?}", want))),
+                                        ])
+                                    });
+                                }
+                            }
+                        }
+                    }
+                }
+            }
+        });
+        suspended_cases = cnt.load(Ordering::Relaxed);
+    }
+    ev.add("suspended_program_cases", ji(suspended_cases));
 
     // ---------- code that was compiled but not run yet survives a rejected source
     let mut pending_cases = 0u64;
